@@ -22,6 +22,8 @@ var (
 	fDigests = flag.Bool("vsim.digests", false, "emit per-run digests (determinism self-test)")
 	fList    = flag.Bool("vsim.list", false, "list properties")
 	fWall    = flag.Duration("vsim.wall", 0, "stop starting new runs after this wall time")
+	fTrace   = flag.Bool("vsim.trace", false, "keep and emit full traces (debugging)")
+	fTmp     = flag.String("vsim.tmp", "", "directory for scratch files (default: system temp dir)")
 	fKnown   = flag.String("vsim.known", "", "known-findings json (fingerprints to skip shrinking)")
 )
 
@@ -66,6 +68,11 @@ func toReplay(r *Result) ReplayFile {
 }
 
 func TestWorker(t *testing.T) {
+	defer func() {
+		if fifoDir != "" {
+			os.RemoveAll(fifoDir)
+		}
+	}()
 	if *fList {
 		ps := map[string]any{}
 		for id, p := range props {
@@ -103,7 +110,10 @@ func TestWorker(t *testing.T) {
 			break
 		}
 		rs := RunSpec{Prop: *fProp, Seed: *fSeed, Index: i, Tier: *fTier, Family: *fFamily}
-		r := execRun(t, rs, false)
+		r := execRun(t, rs, *fTrace)
+		if *fTrace {
+			out.Samples = append(out.Samples, map[string]any{"index": i, "trace": r.Trace})
+		}
 		out.Evaluations++
 		out.Families[r.Family]++
 		out.Steps += r.Steps
